@@ -36,6 +36,75 @@ def s_empty_string(eng, fr, ins, st, name, argv):
     return None
 
 
+def _strlen_of(eng, fr, ins, st, p):
+    """length of a C string literal or of a modelled std::string (strings are modelled by their length only)"""
+    cs = [(g, q) for g, q in ptr_cases(p) if q.obj is not None]
+    if len(cs) != 1:
+        return z3.FreshConst(z3.BitVecSort(64), 'strlen')
+    q = cs[0][1]
+    o = st.mem.o.get(q.obj)
+    if isinstance(o, ArrayObj):
+        return s_strlen(eng, fr, ins, st, 'strlen', [q])
+    if isinstance(o, RecObj) and isinstance(q.off, int) and (q.off + 8) in o.cells:
+        return o.cells[q.off + 8][0]
+    return z3.FreshConst(z3.BitVecSort(64), 'strlen')
+
+
+def _set_string(eng, st, sret, length):
+    o = st.mem.o[sret.obj]
+    buf = eng.new_array(st.mem, eng.fresh_name('str'), ('i', 8), z3.BitVecVal(1 << 20, 64), tag='heap')
+    o.cells[sret.off] = (buf, 8)
+    o.cells[sret.off + 8] = (z3.simplify(length), 8)
+    o.cells[sret.off + 16] = (z3.simplify(length), 8)
+
+
+def s_lit_string(eng, fr, ins, st, name, argv):
+    """std::string(const char*): only the length is modelled (the characters are not the subject of any claim)"""
+    _set_string(eng, st, argv[0], _strlen_of(eng, fr, ins, st, argv[1]))
+    return None
+
+
+def s_concat_string(eng, fr, ins, st, name, argv):
+    """operator+ on strings / literals: length = sum of the lengths"""
+    _set_string(eng, st, argv[0], _strlen_of(eng, fr, ins, st, argv[1]) + _strlen_of(eng, fr, ins, st, argv[2]))
+    return None
+
+
+def s_some_string(eng, fr, ins, st, name, argv):
+    """to_string / quote / classname: a non-empty string of unknown text"""
+    n = z3.FreshConst(z3.BitVecSort(64), 'len')
+    eng.s.add(n >= 1, n <= 64)
+    _set_string(eng, st, argv[0], n)
+    return None
+
+
+def s_string_append(eng, fr, ins, st, name, argv):
+    """std::string::_M_append(const char*, n): length grows by n"""
+    this, n = argv[0], argv[2]
+    o = st.mem.o[this.obj]
+    cur = o.cells.get(this.off + 8, (BV(0), 8))[0]
+    _set_string(eng, st, this, cur + n)
+    return this
+
+
+def s_string_replace(eng, fr, ins, st, name, argv):
+    """std::string::_M_replace(pos, len1, s, len2): length changes by len2 - len1"""
+    this, n1, n2 = argv[0], argv[2], argv[4]
+    o = st.mem.o[this.obj]
+    cur = o.cells.get(this.off + 8, (BV(0), 8))[0]
+    _set_string(eng, st, this, cur - n1 + n2)
+    return this
+
+
+STRING_LENGTH_STUBS = {
+    '_ZNSt7__cxx1112basic_stringIcSt11char_traitsIcESaIcEE9_M_appendEPKcm': s_string_append,
+    '_ZNSt7__cxx1112basic_stringIcSt11char_traitsIcESaIcEE10_M_replaceEmmPKcm': s_string_replace,
+    '_ZNSt7__cxx1112basic_stringIcSt11char_traitsIcESaIcEEC1EPKcRKS3_': s_lit_string, '_ZNSt7__cxx1112basic_stringIcSt11char_traitsIcESaIcEEC2EPKcRKS3_': s_lit_string,
+    '_ZStplIcSt11char_traitsIcESaIcEENSt7__cxx1112basic_stringIT_T0_T1_EE*': s_concat_string, '_ZNSt7__cxx119to_stringEl': s_some_string,
+    '*9classnameB5cxx11Ev': s_some_string,
+}
+
+
 def s_handle_error(eng, fr, ins, st, name, argv):
     err = argv[0]
     cell = st.mem.o[err.obj].cells.get(err.off)
